@@ -270,7 +270,7 @@ PROPS['C09'] = dict(
 PROPS['C11'] = dict(
     level='other',
     claim='staging directives: expand_staging_directives (dictionary form: what is given is kept, target defaults to the base name of the source, action to the documented default; short form: source and target are read on the right sides of > >> < <<, in that precedence; one directive out per directive in), complete_url (a schema the context names is placed below the location the context gives, file:// and unknown schemas are left alone, a host on a sandbox schema is refused), the dispatch loop of the agent input stager (every directive with a local action - copy, link, move, tarball, download - is carried out by exactly one operation, the tarball is the one the client pushed into the task sandbox) and the triage loop of the client output stager (a task is staged iff it ended DONE or asked for stage_on_error and has transfer directives) are proved for all inputs. That files then exist with the source\'s content is decided by a bounded native run of the real stagers on a temporary file tree (labelled bounded). Two genuine defects were found and repaired (tarball never unpacked; stage_on_error ignored on the client side)',
-    note='the file system, cp / link / move and tar themselves are outside any contract here; the client input stager (_handle_task: tar creation, transfer) and the agent output stager are covered by the bounded run only; remote (SAGA) endpoints cannot be exercised in the sandbox',
+    note='the file system, cp / link / move and tar themselves are outside any contract here; the client input stager (_handle_task: tar creation, transfer) is covered by the bounded run only; of the agent output stager the triage loop is under contract (each task of a bulk is failed, passed on or staged with exactly its own copy / link / move directives), its staging operations by the bounded run; of the client output stager the triage loop and the reporting statements are under contract; remote (SAGA) endpoints cannot be exercised in the sandbox',
     assumptions=['A2', 'A4', 'A9', 'A10', 'A11', 'A15'],
     trusted_base=['radical.utils.Url (parsing a text into schema / host / path): uninterpreted', 'os.path.basename / exists / isdir / join: uninterpreted', 'StagingHelper backends (cp -r, os.link, shutil.move, tarfile)'],
     explanation='function-against-spec contracts on the URL / directive functions; ghost operation log for the dispatch loop; bounded end-to-end run',
@@ -278,7 +278,8 @@ PROPS['C11'] = dict(
     clauses={'short form and dictionary form expand to the same directive shape with documented defaults': 'P',
              'URLs denote the documented locations (client, resource, session, pilot, task sandbox; relative paths)': 'P (complete_url) + B',
              'every action is carried out (transfer, copy, link, move, tarball)': 'P (agent dispatch) + B (files exist with content)',
-             'outputs of a failed task only with stage_on_error': 'P (client triage loop) + B',
+             'outputs of a failed task only with stage_on_error': 'P (client and agent triage loops) + B',
+             'a task of a bulk is staged with exactly its own directives (agent output stager)': 'P + B (bulk of three tasks)',
              'a directive that cannot be carried out fails that task only': 'B'})
 
 PROPS['C10'] = dict(
